@@ -233,6 +233,14 @@ func (s *Stream) Read(buffer []byte) (int, error) {
 	}
 	s.receiveBufferLock.Unlock()
 
+	// If nothing was read (which, given that the buffer was non-empty, means
+	// that the caller provided an empty buffer), then there's no window
+	// capacity to return, and a zero-valued window increment would be treated
+	// as a protocol violation by the remote.
+	if count == 0 {
+		return 0, nil
+	}
+
 	// Send a window update corresponding to the amount that we read.
 	select {
 	case s.multiplexer.enqueueWindowIncrement <- windowIncrement{s.identifier, uint64(count)}:
